@@ -90,6 +90,24 @@ class GrossRange(Case):
             if self.params["suspect"]:
                 v["s0"], v["s1"] = 0.2, 0.6
             yield v
+        # decimal (non-dyadic) float64 bounds with data exactly on a bound and one ulp either side, and spans so
+        # wide that max - min or min + max leave the float range: the test is a pure comparison, so the exact
+        # reading of the statement is also what float64 must give - any arithmetic on the bounds shows here
+        import math
+
+        for (f0, f1), (s0, s1) in (((0.1, 0.3), (0.15, 0.25)), ((0.0, 45.3), (5.3, 30.1)), ((-2.0, 35.1), (0.1, 30.7)), ((10, 50), (20, 40)), ((-1e308, 1e308), (-1.0, 1.0)), ((1e-320, 1e308), (1.0, 2.0))):
+            pts = []
+            for b in (f0, f1, s0, s1):
+                b = float(b)
+                pts += [b, math.nextafter(b, math.inf), math.nextafter(b, -math.inf)]
+            pts += [1.5e308, -1.5e308, 0.0]
+            for i in range(0, len(pts), 5):
+                xs = pts[i : i + 5]
+                for a, b in ((f0, f1), (f1, f0)):
+                    v = {"n": len(xs), "x": list(xs), "f0": a, "f1": b, "keep": 1}
+                    if self.params["suspect"]:
+                        v["s0"], v["s1"] = s0, s1
+                    yield v
 
 
 def cases():
